@@ -14,7 +14,9 @@
                 segment_len_is_reachable, clear_resets, count_eq_entries_at_quiescence,
                 no_nested_locks, gen_grow_len_pow2_tie
                 occupancy_bound (every schedule: entries <= capacity + calls in
-                flight + fruitless full-ring scans), entries_le_counter_plus_inflight,
+                flight + fruitless full-ring scans not yet made up for),
+                occupancy_bound_repaired (the repaired spill loop: entries <=
+                capacity + calls in flight), entries_le_counter_plus_inflight,
                 foreach_no_duplicates (ForEach concurrent with writers)
      partial  : none
      refuted  : occupancy_bound_refuted (the bound without the last term; finding
@@ -160,11 +162,11 @@ Print Assumptions segment_len_is_reachable.
        threads running SetWithCap/Set/PutIfNotExists/Del/CAS/CompareAndDelete/Clear
        (Clear as repaired by aae41ee: per-segment subtraction under the lock):
        once all calls have returned, Len() equals the number of reachable entries. *)
-Theorem count_eq_entries_at_quiescence : forall (mix : N -> N) (sidx : nat -> N -> nat) (eoff : N -> Z),
+Theorem count_eq_entries_at_quiescence : forall (mix : N -> N) (sidx : nat -> N -> nat) (eoff : N -> Z) (rescan : bool),
   (forall n k, 0 < n -> sidx n k < n) ->
   forall m0 progs sched,
   SWF mix sidx m0 ->
-  let s := run mix sidx eoff (init m0 progs) sched in
+  let s := run mix sidx eoff rescan (init m0 progs) sched in
   quiescent s = true ->
   SWF mix sidx (c_map s) /\ sm_len (c_map s) = entries s /\
   sm_len (c_map s) = Z.of_nat (length (sm_all (c_map s))) /\
@@ -172,20 +174,33 @@ Theorem count_eq_entries_at_quiescence : forall (mix : N -> N) (sidx : nat -> N 
 Proof. exact Proofs_conc.count_eq_entries_at_quiescence. Qed.
 Print Assumptions count_eq_entries_at_quiescence.
 
-(* 12. Capacity under concurrency.  For every schedule of any number of threads
+(* Every concurrent theorem below holds for both spill loops of the model
+   (rescan = false: the loop of /repo; rescan = true: props/C16/fix.patch).
+
+   12. Capacity under concurrency.  For every schedule of any number of threads
        using the cache.Cache operations (SetWithCap with one capacity, Del, CAS,
        CompareAndDelete, Clear, Get, ForEach) from a map within its capacity:
          entries <= capacity + calls in flight + c_exh
-       where the ghost counter c_exh counts the SetWithCap calls that have returned
-       because their spill loop ran through the whole ring although they had evicted
-       nothing.  Where no such fruitless full-ring scan occurs the property's
+       where the ghost counter c_exh (Conc.v) is the number of SetWithCap calls that
+       have returned because their spill loop ran through the whole ring although
+       they had evicted nothing, and that nothing has made up for yet:
+         +1  at such a return;
+         -1  (not below 0) for every entry removed beyond an over-capacity insert's
+             first eviction: the second eviction of an insert's toll, a Remove /
+             CompareAndDelete that hits, every entry dropped by Clear;
+         =0  again whenever a SetWithCap call loads the counter and finds it within
+             the capacity.
+       So an overshoot is at most the number of fruitless full-ring scans, every
+       later over-capacity Add (toll 2, at most one entry added) takes one off, and
+       the bound as the property states it is back at the latest when an Add sees the
+       counter within capacity.  Where no fruitless scan occurs the property's
        statement holds as given (third conjunct). *)
-Theorem occupancy_bound : forall (mix : N -> N) (sidx : nat -> N -> nat) (eoff : N -> Z),
+Theorem occupancy_bound : forall (mix : N -> N) (sidx : nat -> N -> nat) (eoff : N -> Z) (rescan : bool),
   (forall n k, 0 < n -> sidx n k < n) ->
   forall cap m0 progs sched,
   SWF mix sidx m0 -> (sm_count m0 <= cap)%Z ->
   (forall p, In p progs -> forall c, In c p -> capped cap c) ->
-  let s := run mix sidx eoff (init m0 progs) sched in
+  let s := run mix sidx eoff rescan (init m0 progs) sched in
   (entries s <= cap + inside s + c_exh s)%Z /\ (0 <= c_exh s)%Z /\
   (c_exh s = 0%Z -> entries s <= cap + inside s)%Z.
 Proof. exact Proofs_conc.occupancy_bound. Qed.
@@ -202,33 +217,62 @@ Theorem occupancy_bound_refuted :
 Proof. exact occupancy_bound_refuted_lemma. Qed.
 Print Assumptions occupancy_bound_refuted.
 
+(* With the repaired spill loop (a writer that has been round the ring without
+   evicting anything while the counter is above the capacity goes round again, own
+   segment included: props/C16/fix.patch) the property's bound holds as stated, for
+   every schedule. *)
+Theorem occupancy_bound_repaired : forall (mix : N -> N) (sidx : nat -> N -> nat) (eoff : N -> Z),
+  (forall n k, 0 < n -> sidx n k < n) ->
+  forall cap m0 progs sched, (1 <= cap)%Z ->
+  SWF mix sidx m0 -> (sm_count m0 <= cap)%Z ->
+  (forall p, In p progs -> forall c, In c p -> capped cap c) ->
+  let s := run mix sidx eoff true (init m0 progs) sched in
+  (entries s <= cap + inside s)%Z.
+Proof. intros mix sidx eoff H cap m0 progs sched Hc. exact (Proofs_conc.occupancy_bound_repaired mix sidx eoff true H cap m0 progs sched eq_refl Hc). Qed.
+Print Assumptions occupancy_bound_repaired.
+
+(* Which of the two loops /repo has is read from the source text; with the repaired
+   one the property's bound holds for the code's own hash functions as stated. *)
+Theorem spill_loop_tie :
+  ((spill_cond_src = [spill_cond_plain] /\ go_rescan = false) \/ (spill_cond_src = [spill_cond_rescan] /\ go_rescan = true)) /\
+  (go_rescan = true -> forall cap progs sched, (1 <= cap)%Z ->
+     (forall p, In p progs -> forall c, In c p -> capped cap c) ->
+     let s := c_run_src (init (new_segmap 4 0) progs) sched in (entries s <= cap + inside s)%Z).
+Proof.
+  split; [exact gen_spill_cond_known|]. intros R cap progs sched Hc Hp. unfold c_run_src. rewrite R.
+  apply (Proofs_conc.occupancy_bound_repaired go_mix go_sidx go_eoff true go_sidx_lt cap _ progs sched eq_refl Hc); auto.
+  - apply (new_segmap_SWF go_mix go_sidx go_sidx_lt 4%Z 0%Z).
+  - vm_compute. destruct cap; try discriminate; lia.
+Qed.
+Print Assumptions spill_loop_tie.
+
 (* In every reachable state (any calls, Set and PutIfNotExists included) the entries
    exceed the counter by at most the number of calls in flight. *)
-Theorem entries_le_counter_plus_inflight : forall (mix : N -> N) (sidx : nat -> N -> nat) (eoff : N -> Z),
+Theorem entries_le_counter_plus_inflight : forall (mix : N -> N) (sidx : nat -> N -> nat) (eoff : N -> Z) (rescan : bool),
   (forall n k, 0 < n -> sidx n k < n) ->
   forall m0 progs sched,
   SWF mix sidx m0 ->
-  let s := run mix sidx eoff (init m0 progs) sched in
+  let s := run mix sidx eoff rescan (init m0 progs) sched in
   (entries s <= sm_count (c_map s) + inside s)%Z.
 Proof. exact Proofs_conc.occupancy_bound_partial. Qed.
 Print Assumptions entries_le_counter_plus_inflight.
 
 (* 12b. ForEach concurrent with writers (one segment at a time, not a snapshot)
         never yields a key twice. *)
-Theorem foreach_no_duplicates : forall (mix : N -> N) (sidx : nat -> N -> nat) (eoff : N -> Z),
+Theorem foreach_no_duplicates : forall (mix : N -> N) (sidx : nat -> N -> nat) (eoff : N -> Z) (rescan : bool),
   (forall n k, 0 < n -> sidx n k < n) ->
   forall m0 progs sched,
   SWF mix sidx m0 ->
-  let s := run mix sidx eoff (init m0 progs) sched in
+  let s := run mix sidx eoff rescan (init m0 progs) sched in
   forall tid l, In (tid, ObAll l) (c_obs s) -> NoDup (map fst l).
 Proof. exact Proofs_conc.foreach_no_duplicates. Qed.
 Print Assumptions foreach_no_duplicates.
 
 (* 13. No writer waits on a lock while holding one; there are only per-segment locks. *)
-Theorem no_nested_locks : forall (mix : N -> N) (sidx : nat -> N -> nat) (eoff : N -> Z),
+Theorem no_nested_locks : forall (mix : N -> N) (sidx : nat -> N -> nat) (eoff : N -> Z) (rescan : bool),
   (forall n k, 0 < n -> sidx n k < n) ->
   forall m0 progs sched,
-  let s := run mix sidx eoff (init m0 progs) sched in
+  let s := run mix sidx eoff rescan (init m0 progs) sched in
   (forall j1 j2 tid, nth j1 (c_locks s) None = Some tid -> nth j2 (c_locks s) None = Some tid -> j1 = j2) /\
   (forall n p, acquires p = true -> holds sidx n p = None).
 Proof. exact Proofs_conc.no_nested_locks. Qed.
@@ -245,6 +289,18 @@ Example ex_wf : WF go_mix (tput go_mix (tput go_mix (new_table 0) 5 1) 13 2).
 Proof.
   exact (proj1 (proj2 (Proofs_hist.wf_preserved go_mix) _
            (proj1 (proj2 (Proofs_hist.wf_preserved go_mix) _ (proj1 (Proofs_hist.wf_preserved go_mix) 0%Z)) 5%N 1%N)) 13%N 2%N).
+Qed.
+(* concurrent theorems: a capped program set and a schedule that ends over capacity
+   with the loop of /repo (two fruitless scans) and within it with the repaired loop *)
+Example ex_occ : (forall p, In p occ_progs -> forall c, In c p -> capped 1 c) /\
+  (let s := c_run (init (new_segmap 4 0) occ_progs) occ_sched in entries s = 2%Z /\ inside s = 0%Z /\ c_exh s = 2%Z) /\
+  (let s := c_run_rescan (init (new_segmap 4 0) occ_progs) (occ_sched ++ repeat 1 100 ++ repeat 2 100) in entries s = 1%Z).
+Proof.
+  split; [|split].
+  - intros p Hp c Hc. unfold occ_progs in Hp. simpl in Hp.
+    repeat (destruct Hp as [<-|Hp]; [simpl in Hc; destruct Hc as [<-|[]]; reflexivity|]). destruct Hp.
+  - destruct occ_witness as [_ [B [C [_ [_ D]]]]]. cbv zeta. auto.
+  - destruct occ_witness_rescan as [_ [_ [C _]]]. exact C.
 Qed.
 Example ex_swf : SWF go_mix go_sidx (sm_set go_mix go_sidx (new_segmap 4 0) 5 1).
 Proof.
